@@ -409,7 +409,42 @@ def rule_e(ctx):
     ctx.floor(R, 1)
 
 
+def rule_h(ctx):
+    R = "C10.h"
+    ctx.rule(R, "a correction is a function of its configuration and the array it is given: hidden-state analysis of every concrete correction with "
+             "correct_array as entry -- whatever correct_array keeps on the object (index maps, warps) is keyed on everything it was computed from, so a "
+             "second array of another shape / depth is not corrected with the maps of the first")
+    from ..state import StateAnalysis
+
+    EXEMPT = {"CurvatureCorrection": "the pre-computed pixel grid is the documented purpose of the cache (one object per camera set-up and image shape; C18.d treats it likewise)"}
+    m = ctx.model
+    base, subs = concrete_corrections(m)
+    n = 0
+    for k in subs:
+        ca = m.method(k, "correct_array")
+        if ca is None or ca.cls is base:
+            continue
+        if k.name in EXEMPT:
+            ctx.note(f"{R}: {k.name} exempt: {EXEMPT[k.name]}")
+            continue
+        n += 1
+        ctx.instance(R)
+        sa = StateAnalysis(m, k, ["correct_array"])
+        seen = set()
+        for f, nd, a, kind, an, chain in sa.cross_call_reads():
+            key = (f.qname, a, nd.text())
+            if key in seen:
+                continue
+            seen.add(key)
+            ok, why = sa.justify(f, nd, a, kind)
+            ctx.ob(R, f.qname, f"{k.name}: read of self.{a} in `{nd.text()[:60]}` does not depend on earlier calls", ok,
+                   f"{why}. What an earlier array left on the object is applied to this one", an, evidence=True)
+        ctx.ob(R, k.qname, f"{k.name}: correct_array analysed for state kept between calls ({sorted(sa.call_written)})", True, "", k.node)
+    ctx.floor(R, 8)
+
+
 def run(ctx):
+    ctx.guard(rule_h, ctx)
     E = Effects(ctx.model)
     f, img_b, sem = rule_a(ctx)
     ctx.guard(rule_b, ctx, E, f, img_b, sem)
